@@ -45,7 +45,7 @@ def run_gosym(group, tier, extra_overlays):
     cmd = [GOSYM, "-repo", REPO, "-harness", HARNESS, "-pkgs", group["pkgs"], "-fn", ",".join(group["fns"]), "-out", out,
            "-j", str(opts.get("j", 3)), "-w", str(opts.get("w", 6)), "-feas-ms", str(opts.get("feas_ms", 8000)),
            "-assert-ms", str(opts.get("assert_ms", 60000 if tier == "quick" else 300000)),
-           "-max-paths", str(opts.get("max_paths", 20000))]
+           "-max-paths", str(opts.get("max_paths", 20000)), "-tier", tier]
     if opts.get("map_orders"):
         cmd.append("-map-orders")
     for ov in extra_overlays:
@@ -305,7 +305,23 @@ def main():
             else:
                 if not any((u["harness"], u["obligation"]) == key for u in unconfirmed):
                     unconfirmed.append(entry)
-        # cover points
+    # translator validation: the witness of each cover point (a model of the symbolic run) is executed
+    # natively; the real code must reach the same cover point with no failed assertion
+    conf_ok = conf_bad = 0
+    conf_limit = spec.get("conformance_limit", 8 if tier == "quick" else 40)
+    for r in results:
+        for cid, sc in sorted((r.get("cover_models") or {}).items()):
+            if sc is None or conf_ok + conf_bad >= conf_limit or "(feasibility unknown)" in cid:
+                continue
+            sc = dict(sc, pkg=r["pkg"])
+            path = os.path.join(evdir, "replay", "%s-cover-%s.json" % (prop, re.sub(r"[^A-Za-z0-9_.-]", "_", cid)))
+            rr = replay(r["pkg"], sc, path, extra)
+            if cid in (rr.get("covers") or []) and not rr.get("failed_asserts") and not rr.get("panic"):
+                conf_ok += 1
+            else:
+                conf_bad += 1
+                print("CONFORMANCE-MISMATCH cover %s@%s native=%s" % (cid, r["harness"], json.dumps(rr)[:300]))
+    replayed += conf_ok + conf_bad
     missing_covers = [c for c in spec.get("covers", []) if covers.get(c, 0) == 0]
 
     for (hn, ob), k in known_hits.items():
@@ -332,6 +348,7 @@ def main():
             "obligations": obligations, "discharged": discharged, "inconclusive": inconclusive,
             "violations_confirmed_new": len(violations_new), "known_findings_reproduced": len(known_hits),
             "unconfirmed_cex": len(unconfirmed),
+            "cover_witnesses_replayed_natively": conf_ok + conf_bad, "cover_witnesses_agreeing": conf_ok,
             "harnesses": sorted(set(r["harness"] for r in results)),
             "functions_encoded": sorted(fns), "intrinsics_used": sorted(intr),
             "covers_reached": covers, "covers_missing": missing_covers,
